@@ -132,6 +132,9 @@ class WaitingSender(explore.Scenario):
                     if think and r:
                         tm.sleep(think)      # the peer takes its time over the repeated request
                     worker.notify_incoming_message(make_answer(req.header.get_hop_by_hop(), 50 + r))
+                    if self.params.get("duplicate") and r == 0:
+                        # the first answer arrives twice (a retransmission)
+                        worker.notify_incoming_message(make_answer(req.header.get_hop_by_hop(), 60))
                 return
             while delivered < k:
                 if eager:
@@ -310,6 +313,7 @@ SCENARIO_CLASSES = {"waiting-sender": WaitingSender, "two-connections": TwoConne
 def scenarios(tier):
     yield WaitingSender(k=1, order=[0], eager=True, unsolicited=False, resend=1)
     yield WaitingSender(k=1, order=[0], eager=True, unsolicited=False, resend=1, think=5.0)
+    yield WaitingSender(k=1, order=[0], eager=True, unsolicited=False, resend=1, think=5.0, duplicate=True)
     yield TwoConnections(order=[0, 1])
     yield TwoConnections(order=[1, 0])
     yield TwoConnections(order=[0], connections=1, end_after_answer=True)
